@@ -46,6 +46,12 @@ CLAIMED = {
     text='Grids are generated from rectangular and shipped irregular geometries (all atmosphere types, random surfaces); compositions of 1-4 real operations (random block permutations, connection permutations with random/all reversals, reorder(geo=differently ordered geometry), random one-to-one renames incl. swaps/cycles) are executed and after every step the physical signature computed by the harness is compared with the one before (names mapped through the rename map) - exactly in memory, through the carrying field formats after a data-file write/read. MINC runs with 2-6 fractions summing to <1, 1, >1, 1-3 plane sets, full/partial selections: per original block the continua volumes must sum to the original and match the normalised fractions, the new connections must form one outer-to-inner chain, the original network must be untouched; embed must conserve total volume.',
     note='Trusted: the signature definition in vf/props/c09.py (upper block = block[1] for a negative gravity cosine; cosines below 1e-9 carry no orientation). MINC interface areas and nodal distances are not checked (the property does not state them).',
     design='DESIGN.md §3 C09'),
+
+ 'C13': dict(
+    technique='runtime round-trip monitor: model projection through field formats, byte identity of rewrite, independent Fortran-style SAVE writer feeding the real reader, in-situ record re-slicing',
+    text='Generated initial-condition sets (0-40 blocks, 1-12 variables, negative/zero/3-digit-exponent values, optional porosity, TOUGHREACT permeabilities incl. zeros, nseq/nadd, timing x reset, names of all four conventions and (A3,I2) quirk forms) are written by the real writer, re-read by the real reader and compared with the expected model (reals through the carrying field format, exactly); the re-read object is written again and must reproduce the first file byte for byte; the header of a non-reset file must announce the block count and time. Independently, SAVE-like files emitted by an own Fortran-style writer (0.ddddE+xx and 1P styles, letter-less 3-digit exponents, long header, both timing layouts) must be decoded to the emitted model. The 7 shipped files go through the same cycle; every record written is re-sliced in situ by the C02 monitor.',
+    note='Trusted: vf/oracle/fortran_writer.py, the expected-model projection in vf/props/c13.py. Domain: values fit their fields; the TOUGHREACT flavour is only claimed when some block carries permeabilities (the only way a file shows it); convention-3 names are read with check_blocknames=False as documented.',
+    design='DESIGN.md §3 C13'),
 }
 
 def main():
